@@ -468,6 +468,113 @@ theorem layoutG_set (env : Env) (henv : env.strtod = strtodC) (D : Nat) (X : Int
     simpa using this
 
 
+/-- powers of ten with a shifted integer exponent, as a fraction of natural powers -/
+theorem ten_zpow_sub_nat (x : Nat) (hx : x ≤ 5) : (10 : ℚ) ^ ((x : Int) - 5) = 1 / ((10 ^ (5 - x) : Nat) : ℚ) := by
+  have : (x : Int) - 5 = -(((5 - x : Nat) : Int)) := by omega
+  rw [this, zpow_neg, zpow_natCast, Nat.cast_pow, Nat.cast_ofNat, one_div]
+
+theorem ten_zpow_neg_nat (y : Nat) : (10 : ℚ) ^ (-((y : Int) + 1) - 5) = 1 / ((10 ^ (y + 6) : Nat) : ℚ) := by
+  have : -((y : Int) + 1) - 5 = -(((y + 6 : Nat) : Int)) := by push_cast; ring
+  rw [this, zpow_neg, zpow_natCast, Nat.cast_pow, Nat.cast_ofNat, one_div]
+
+theorem allDig_nil : AllDig [] := by intro c hc; cases hc
+
+/-- **shape of the `%g` layout in the fixed range**: digits, optionally a point and more digits;
+    its decimal value is `D·10^(X-5)` -/
+theorem layoutG_shape (D : Nat) (X : Int) (hD1 : 100000 ≤ D) (hD2 : D < 1000000) (hX1 : -4 ≤ X)
+    (hX2 : X ≤ 5) :
+    ∃ ip fp : Bytes, AllDig ip ∧ ip ≠ [] ∧ AllDig fp ∧
+      (layoutG D X = ip ++ 46 :: fp ∨ (fp = [] ∧ layoutG D X = ip)) ∧
+      ((decVal (ip ++ fp) 0 : Nat) : ℚ) / ((10 ^ fp.length : Nat) : ℚ) = D * 10 ^ (X - 5) := by
+  have hlen : (renderNat D).length = 6 :=
+    renderNatF_length 5 (D + 1) D (by norm_num; omega) (by norm_num; omega) (lt_ten_pow D)
+  have hall : AllDig (renderNat D) := renderNatF_allDig _ _
+  have hval : decVal (renderNat D) 0 = D := decVal_renderNat D
+  have hpad : padLeft 6 (renderNat D) = renderNat D := by simp [padLeft, hlen]
+  unfold layoutG
+  simp only [hpad]
+  have hc1 : (decide (X < -4) || decide (X ≥ 6)) = false := by
+    simp only [Bool.or_eq_false_iff, decide_eq_false_iff_not]; omega
+  simp only [hc1, Bool.false_eq_true, if_false]
+  by_cases hx0 : X ≥ 0
+  · simp only [hx0, if_true]
+    obtain ⟨x, hx⟩ : ∃ x : Nat, X = x := ⟨X.toNat, by omega⟩
+    subst hx
+    have hx5 : x ≤ 5 := by omega
+    simp only [Int.toNat_natCast]
+    have hsplit : renderNat D = (renderNat D).take (x + 1) ++ (renderNat D).drop (x + 1) :=
+      (List.take_append_drop _ _).symm
+    have hipl : ((renderNat D).take (x + 1)).length = x + 1 := by simp [hlen]; omega
+    have hfrl : ((renderNat D).drop (x + 1)).length = 5 - x := by simp [hlen]
+    have hipne : (renderNat D).take (x + 1) ≠ [] := by
+      intro h; rw [h] at hipl; simp at hipl
+    have hipall : AllDig ((renderNat D).take (x + 1)) := allDig_sub hall (fun c hc => List.mem_of_mem_take hc)
+    have hfrall : AllDig ((renderNat D).drop (x + 1)) := allDig_sub hall (fun c hc => List.mem_of_mem_drop hc)
+    obtain ⟨z, hz1, hz2⟩ := stripZeros_split ((renderNat D).drop (x + 1))
+    have hD : decVal ((renderNat D).take (x + 1) ++ stripZeros ((renderNat D).drop (x + 1))) 0 * 10 ^ z = D := by
+      rw [decVal_append, ← decVal_zeros, ← hz1, ← decVal_append, ← hsplit, hval]
+    -- the value, as a rational
+    have hq : ((decVal ((renderNat D).take (x + 1) ++ stripZeros ((renderNat D).drop (x + 1))) 0 : Nat) : ℚ) /
+        ((10 ^ (stripZeros ((renderNat D).drop (x + 1))).length : Nat) : ℚ) = D * 10 ^ ((x : Int) - 5) := by
+      rw [ten_zpow_sub_nat x hx5]
+      have hL : (stripZeros ((renderNat D).drop (x + 1))).length + z = 5 - x := by omega
+      have hp : (10 : Nat) ^ (5 - x) = 10 ^ (stripZeros ((renderNat D).drop (x + 1))).length * 10 ^ z := by
+        rw [← Nat.pow_add, hL]
+      have hz0 : (0 : ℚ) < ((10 ^ z : Nat) : ℚ) := by exact_mod_cast Nat.pow_pos (by norm_num)
+      have hl0 : (0 : ℚ) < ((10 ^ (stripZeros ((renderNat D).drop (x + 1))).length : Nat) : ℚ) := by
+        exact_mod_cast Nat.pow_pos (by norm_num)
+      have hDq : (D : ℚ) = ((decVal ((renderNat D).take (x + 1) ++
+          stripZeros ((renderNat D).drop (x + 1))) 0 : Nat) : ℚ) * ((10 ^ z : Nat) : ℚ) := by
+        exact_mod_cast hD.symm
+      rw [hp, Nat.cast_mul, hDq]
+      field_simp
+    by_cases hemp : (stripZeros ((renderNat D).drop (x + 1))).isEmpty = true
+    · have he : stripZeros ((renderNat D).drop (x + 1)) = [] := List.isEmpty_iff.mp hemp
+      refine ⟨(renderNat D).take (x + 1), [], hipall, hipne, allDig_nil, Or.inr ⟨rfl, ?_⟩, ?_⟩
+      · simp [he]
+      · rw [he] at hq; exact hq
+    · refine ⟨(renderNat D).take (x + 1), stripZeros ((renderNat D).drop (x + 1)), hipall, hipne,
+        allDig_stripZeros hfrall, Or.inl ?_, hq⟩
+      simp [hemp]
+  · simp only [hx0, if_false]
+    obtain ⟨y, hy⟩ : ∃ y : Nat, X = -((y : Int) + 1) := ⟨(-X).toNat - 1, by omega⟩
+    subst hy
+    have hy3 : y ≤ 3 := by omega
+    have hyy : (-(-((y : Int) + 1))).toNat - 1 = y := by omega
+    rw [hyy]
+    have hlall : AllDig (List.replicate y 48 ++ renderNat D) := by
+      intro c hc
+      rcases List.mem_append.mp hc with h | h
+      · exact allDig_replicate y c h
+      · exact hall c h
+    obtain ⟨z, hz1, hz2⟩ := stripZeros_split (List.replicate y 48 ++ renderNat D)
+    have hlv : decVal (List.replicate y 48 ++ renderNat D) 0 = D := by
+      rw [decVal_append, decVal_lead_zeros, hval]
+    have hD : decVal ([48] ++ stripZeros (List.replicate y 48 ++ renderNat D)) 0 * 10 ^ z = D := by
+      have h0 : decVal ([48] ++ stripZeros (List.replicate y 48 ++ renderNat D)) 0 =
+          decVal (stripZeros (List.replicate y 48 ++ renderNat D)) 0 := by
+        rw [decVal_append]; rfl
+      rw [h0, ← decVal_zeros, ← hz1, hlv]
+    have h48 : AllDig [48] := by
+      intro c hc
+      have : c = 48 := by simpa using hc
+      exact ⟨0, by norm_num, by rw [this]; rfl⟩
+    refine ⟨[48], stripZeros (List.replicate y 48 ++ renderNat D), h48, by simp,
+      allDig_stripZeros hlall, Or.inl (by simp), ?_⟩
+    rw [ten_zpow_neg_nat y]
+    have hL : (stripZeros (List.replicate y 48 ++ renderNat D)).length + z = y + 6 := by
+      simp only [List.length_append, List.length_replicate, hlen] at hz2; omega
+    have hp : (10 : Nat) ^ (y + 6) = 10 ^ (stripZeros (List.replicate y 48 ++ renderNat D)).length * 10 ^ z := by
+      rw [← Nat.pow_add, hL]
+    have hz0 : (0 : ℚ) < ((10 ^ z : Nat) : ℚ) := by exact_mod_cast Nat.pow_pos (by norm_num)
+    have hl0 : (0 : ℚ) < ((10 ^ (stripZeros (List.replicate y 48 ++ renderNat D)).length : Nat) : ℚ) := by
+      exact_mod_cast Nat.pow_pos (by norm_num)
+    have hDq : (D : ℚ) = ((decVal ([48] ++ stripZeros (List.replicate y 48 ++ renderNat D)) 0 : Nat) : ℚ) *
+        ((10 ^ z : Nat) : ℚ) := by
+      exact_mod_cast hD.symm
+    rw [hp, Nat.cast_mul, hDq]
+    field_simp
+
 /-! ## the getter: what `cf_get_time_usec` prints for `n` microseconds -/
 
 /-- `cf_get_time_usec` of `n` µs, where `n/10^6 = D·10^(X-5)` has the six digits `D`: the model
@@ -570,5 +677,249 @@ theorem time_usec_roundtrip (env : Env) (hs : env.strtod = strtodC) (hg : env.fm
   simp only [asUsec, Option.bind_some]
   rw [get_time_usec_layout n D X hD1 hD2 hX1 hn hn40]
   exact layoutG_set env hs D X n hD1 hD2 hX1 hX2 hn hn40
+
+
+/-! ## cf_set_time_double → cf_get_time_double on canonical spellings -/
+
+/-- the nearest double of `D·10^(X-5)` (six digits, fixed range) prints as `layoutG D X` -/
+theorem fmtG_of_rounded (a b : Nat) (ha : 0 < a) (hb : 0 < b) (D : Nat) (X : Int)
+    (hD1 : 100000 ≤ D) (hD2 : D < 1000000) (hX1 : -4 ≤ X) (hX2 : X ≤ 5)
+    (hval : (a : ℚ) / b = D * 10 ^ (X - 5)) :
+    fmtG (dblOfRat false a b) = layoutG D X := by
+  have hD1q : (100000 : ℚ) ≤ D := by exact_mod_cast hD1
+  have hD2q : (D : ℚ) < 1000000 := by exact_mod_cast hD2
+  have hu := ten_zpow_pos (X - 5)
+  have hu1 : (10 : ℚ) ^ (-9 : Int) ≤ 10 ^ (X - 5) := ten_zpow_mono (by omega)
+  have hu2 : (10 : ℚ) ^ (X - 5) ≤ 10 ^ (0 : Int) := ten_zpow_mono (by omega)
+  have e9 : (10 : ℚ) ^ (-9 : Int) = 1 / 1000000000 := by norm_num
+  have e0 : (10 : ℚ) ^ (0 : Int) = 1 := by norm_num
+  rw [e9] at hu1
+  rw [e0] at hu2
+  have hlo : (1 : ℚ) / 1048576 ≤ (a : ℚ) / b := by
+    rw [hval]
+    have : (100000 : ℚ) * (1 / 1000000000) ≤ D * 10 ^ (X - 5) := mul_le_mul hD1q hu1 (by norm_num) (by linarith)
+    linarith
+  have hhi : (a : ℚ) / b < 1125899906842624 := by
+    rw [hval]
+    have : (D : ℚ) * 10 ^ (X - 5) ≤ D * 1 := mul_le_mul_of_nonneg_left hu2 (by linarith)
+    linarith
+  obtain ⟨r, hr, hm, herr⟩ := roundRat_spec a b ha hb (lo_ok hlo) (hi_ok hhi)
+  rw [u53, hval] at herr
+  obtain ⟨hb2, hval2⟩ := ratOf_val r.m r.e
+  have hb2n : 0 < (ratOf r.m r.e).2 := by exact_mod_cast hb2
+  have hx := abs_le.mp herr
+  have hpos : (0 : ℚ) < D * 10 ^ (X - 5) := by positivity
+  have ha2 : 0 < (ratOf r.m r.e).1 := by
+    have hp : (0 : ℚ) < (r.m : ℚ) * 2 ^ r.e := by linarith [hx.1]
+    rw [← hval2] at hp
+    have := (div_pos_iff_of_pos_right hb2).mp hp
+    exact_mod_cast this
+  have hclose : |((ratOf r.m r.e).1 : ℚ) / (ratOf r.m r.e).2 - D * 10 ^ (X - 5)| ≤
+      D * 10 ^ (X - 5) * (1 / 1099511627776) := by
+    rw [hval2, abs_le]
+    constructor <;> linarith [hx.1, hx.2]
+  have hsix := sixDigits_spec _ _ ha2 hb2n D X hD1 hD2 hclose
+  rw [dblOfRat_some false a b r hr]
+  have hm0 : (r.m == 0) = false := by
+    have : 0 < 2 ^ 52 := by norm_num
+    simp; omega
+  show signBytes false ++ (if (r.m == 0) = true then [48] else fmtGPos (ratOf r.m r.e).1 (ratOf r.m r.e).2) = _
+  rw [hm0]
+  simp only [Bool.false_eq_true, if_false, signBytes, List.nil_append]
+  unfold fmtGPos
+  rw [hsix]
+
+/-- **cf_set_time_double then cf_get_time_double on every canonical spelling** (six digits `D`,
+    decimal exponent `X ∈ [-4, 5]`; the texts `%g` itself produces in its fixed-notation range, e.g.
+    "0.0001", "2.5", "86400", "999999"): the setter accepts the text and stores the nearest
+    binary64; the getter renders that double as the same text. -/
+theorem time_double_set_get (env : Env) (hs : env.strtod = strtodC) (hg : env.fmtG = fmtG)
+    (D : Nat) (X : Int) (hD1 : 100000 ≤ D) (hD2 : D < 1000000) (hX1 : -4 ≤ X) (hX2 : X ≤ 5) :
+    ∃ d, applySetter env .timeDouble (layoutG D X) = some (.dbl d) ∧
+      applyGetter env .timeDouble (some (.dbl d)) = some (layoutG D X) := by
+  obtain ⟨ip, fp, hip, hne, hfp, hshape, hq⟩ := layoutG_shape D X hD1 hD2 hX1 hX2
+  have hD1q : (100000 : ℚ) ≤ D := by exact_mod_cast hD1
+  have hD2q : (D : ℚ) < 1000000 := by exact_mod_cast hD2
+  have hu := ten_zpow_pos (X - 5)
+  have hu1 : (10 : ℚ) ^ (-9 : Int) ≤ 10 ^ (X - 5) := ten_zpow_mono (by omega)
+  have hu2 : (10 : ℚ) ^ (X - 5) ≤ 10 ^ (0 : Int) := ten_zpow_mono (by omega)
+  have e9 : (10 : ℚ) ^ (-9 : Int) = 1 / 1000000000 := by norm_num
+  have e0 : (10 : ℚ) ^ (0 : Int) = 1 := by norm_num
+  rw [e9] at hu1
+  rw [e0] at hu2
+  have hlo : (1 : ℚ) / 1048576 ≤ D * 10 ^ (X - 5) := by
+    have : (100000 : ℚ) * (1 / 1000000000) ≤ D * 10 ^ (X - 5) := mul_le_mul hD1q hu1 (by norm_num) (by linarith)
+    linarith
+  have hhi : (D : ℚ) * 10 ^ (X - 5) < 1125899906842624 := by
+    have : (D : ℚ) * 10 ^ (X - 5) ≤ D * 1 := mul_le_mul_of_nonneg_left hu2 (by linarith)
+    linarith
+  have hpow : 0 < 10 ^ fp.length := Nat.pow_pos (by norm_num)
+  have hpowq : (0 : ℚ) < ((10 ^ fp.length : Nat) : ℚ) := by exact_mod_cast hpow
+  have hvpos : 0 < decVal (ip ++ fp) 0 := by
+    have hp : (0 : ℚ) < ((decVal (ip ++ fp) 0 : Nat) : ℚ) / ((10 ^ fp.length : Nat) : ℚ) := by
+      rw [hq]; positivity
+    have := (div_pos_iff_of_pos_right hpowq).mp hp
+    exact_mod_cast this
+  have hgetter : ∀ d, applyGetter env .timeDouble (some (.dbl d)) = some (fmtG d) := by
+    intro d; show some (env.fmtG (asDbl (some (.dbl d)))) = _; rw [hg]; rfl
+  rcases hshape with hdot | ⟨hfp0, hnodot⟩
+  · refine ⟨dblOfRat false (decVal (ip ++ fp) 0) (10 ^ fp.length), ?_, ?_⟩
+    · rw [hdot]
+      exact set_time_double_plainQ env hs ip fp hip hne hfp hvpos (by rw [hq]; exact hlo) (by rw [hq]; exact hhi)
+    · rw [hgetter, fmtG_of_rounded _ _ hvpos hpow D X hD1 hD2 hX1 hX2 hq]
+  · subst hfp0
+    simp only [List.append_nil, List.length_nil, Nat.pow_zero] at hq hvpos
+    refine ⟨dblOfRat false (decVal ip 0) 1, ?_, ?_⟩
+    · rw [hnodot]
+      exact set_time_double_intQ env hs ip hip hne hvpos (by rw [hq]; exact hlo) (by rw [hq]; exact hhi)
+    · rw [hgetter, fmtG_of_rounded _ _ hvpos (by norm_num) D X hD1 hD2 hX1 hX2 hq]
+
+
+/-! ## more than six significant digits: the getter rounds, the round trip is stable after one step -/
+
+/-- for any value in `[1/2, 999999.4]`, `sixDigits` yields six digits and an exponent in `[-1, 5]` -/
+theorem sixDigits_exists (n d : Nat) (hn : 0 < n) (hd : 0 < d) (hlo : (1 : ℚ) / 2 ≤ (n : ℚ) / d)
+    (hhi : (n : ℚ) / d ≤ 9999994 / 10) :
+    ∃ D X, sixDigits n d = (D, X) ∧ 100000 ≤ D ∧ D < 1000000 ∧ (-1 : Int) ≤ X ∧ X ≤ 5 := by
+  -- the true decimal exponent
+  obtain ⟨X0, hX0a, hX0b, hl, hh⟩ : ∃ X0 : Int, -1 ≤ X0 ∧ X0 ≤ 5 ∧ (10 : ℚ) ^ X0 ≤ (n : ℚ) / d ∧
+      (n : ℚ) / d < 10 ^ (X0 + 1) := by
+    have p : ∀ k : Int, (10 : ℚ) ^ k = 10 ^ k := fun _ => rfl
+    by_cases h0 : (n : ℚ) / d < 1
+    · exact ⟨-1, by norm_num, by norm_num, by norm_num; linarith, by norm_num; exact h0⟩
+    by_cases h1 : (n : ℚ) / d < 10
+    · exact ⟨0, by norm_num, by norm_num, by norm_num; linarith, by norm_num; exact h1⟩
+    by_cases h2 : (n : ℚ) / d < 100
+    · exact ⟨1, by norm_num, by norm_num, by norm_num; linarith, by norm_num; exact h2⟩
+    by_cases h3 : (n : ℚ) / d < 1000
+    · exact ⟨2, by norm_num, by norm_num, by norm_num; linarith, by norm_num; exact h3⟩
+    by_cases h4 : (n : ℚ) / d < 10000
+    · exact ⟨3, by norm_num, by norm_num, by norm_num; linarith, by norm_num; exact h4⟩
+    by_cases h5 : (n : ℚ) / d < 100000
+    · exact ⟨4, by norm_num, by norm_num, by norm_num; linarith, by norm_num; exact h5⟩
+    · exact ⟨5, by norm_num, by norm_num, by norm_num; linarith, by norm_num; linarith⟩
+  have hu := ten_zpow_pos (X0 - 5)
+  have e5 : (10 : ℚ) ^ X0 = 100000 * 10 ^ (X0 - 5) := by
+    have : X0 = 5 + (X0 - 5) := by ring
+    conv => lhs; rw [this, ten_zpow_add]
+    norm_num
+  have e6 : (10 : ℚ) ^ (X0 + 1) = 1000000 * 10 ^ (X0 - 5) := by
+    have : X0 + 1 = 6 + (X0 - 5) := by ring
+    rw [this, ten_zpow_add]; norm_num
+  obtain ⟨t, ht⟩ : ∃ t : ℚ, t = (n : ℚ) / d / 10 ^ (X0 - 5) := ⟨_, rfl⟩
+  have hw : (n : ℚ) / d = t * 10 ^ (X0 - 5) := by rw [ht]; field_simp
+  have ht1 : (100000 : ℚ) ≤ t := by
+    rw [hw, e5] at hl; exact le_of_mul_le_mul_right hl hu
+  have ht2 : t < 1000000 := by
+    rw [hw, e6] at hh; exact lt_of_mul_lt_mul_right hh hu.le
+  have hr := roundDiv10_spec n d (X0 - 5) hd
+  rw [← ht] at hr
+  have hr' := abs_le.mp hr
+  have hdg1 : 100000 ≤ roundDiv10 n d (X0 - 5) := by
+    have : (99999 : ℚ) < ((roundDiv10 n d (X0 - 5) : Nat) : ℚ) := by linarith [hr'.1]
+    have : 99999 < roundDiv10 n d (X0 - 5) := by exact_mod_cast this
+    omega
+  have hdg2 : roundDiv10 n d (X0 - 5) ≤ 1000000 := by
+    have : ((roundDiv10 n d (X0 - 5) : Nat) : ℚ) < 1000001 := by linarith [hr'.2]
+    have : roundDiv10 n d (X0 - 5) < 1000001 := by exact_mod_cast this
+    omega
+  unfold sixDigits
+  rw [exp10_spec n d hn hd X0 hl hh]
+  by_cases hc : roundDiv10 n d (X0 - 5) ≥ 1000000
+  · have heq : roundDiv10 n d (X0 - 5) = 1000000 := by omega
+    -- a carry at X0 = 5 would need t ≥ 999999.5, excluded by the upper bound
+    have hX5 : X0 ≤ 4 := by
+      by_contra hcon
+      have hX : X0 = 5 := by omega
+      subst hX
+      have : (10 : ℚ) ^ ((5 : Int) - 5) = 1 := by norm_num
+      rw [this] at hw
+      have : ((1000000 : Nat) : ℚ) - t ≤ 1 / 2 := by rw [← heq]; linarith [hr'.2]
+      push_cast at this
+      linarith
+    refine ⟨100000, X0 + 1, ?_, by norm_num, by norm_num, by omega, by omega⟩
+    simp [heq]
+  · refine ⟨roundDiv10 n d (X0 - 5), X0, ?_, hdg1, by omega, hX0a, hX0b⟩
+    simp [hc]
+
+/-- what `cf_get_time_usec` prints for ANY `n` from 1 s to 999999 s: six digits and an exponent
+    chosen by `%g`; feeding the text back stores `n' = D·10^(X+1)`, for which the getter prints
+    the same text and which is then reproduced exactly: get ∘ set ∘ get = get. -/
+theorem time_usec_get_set_stable (env : Env) (hs : env.strtod = strtodC) (hg : env.fmtG = fmtG)
+    (n : Nat) (h1 : 1000000 ≤ n) (h2 : n ≤ 999999000000) :
+    ∃ n' : Nat,
+      (applyGetter env .timeUsec (some (.usec n))).bind (applySetter env .timeUsec) = some (.usec n') ∧
+      applyGetter env .timeUsec (some (.usec n')) = applyGetter env .timeUsec (some (.usec n)) ∧
+      (applyGetter env .timeUsec (some (.usec n'))).bind (applySetter env .timeUsec) = some (.usec n') := by
+  have hn0 : 0 < n := by omega
+  have hN1 : (1000000 : ℚ) ≤ n := by exact_mod_cast h1
+  have hN2 : (n : ℚ) ≤ 999999000000 := by exact_mod_cast h2
+  -- the two roundings of the getter
+  obtain ⟨r1, hr1, hm1, herr1⟩ := roundRat_spec n 1 hn0 (by norm_num)
+    (lo_ok (by push_cast; linarith)) (hi_ok (by push_cast; linarith))
+  rw [u53] at herr1
+  have hx1 := abs_le.mp herr1
+  push_cast at hx1
+  obtain ⟨hb1, hval1⟩ := ratOf_val r1.m r1.e
+  obtain ⟨x1, hx1d⟩ : ∃ x1 : ℚ, x1 = (r1.m : ℚ) * 2 ^ r1.e := ⟨_, rfl⟩
+  rw [← hx1d] at hx1 hval1
+  have hb1n : 0 < (ratOf r1.m r1.e).2 := by exact_mod_cast hb1
+  have ha1 : 0 < (ratOf r1.m r1.e).1 := by
+    have hpos : (0 : ℚ) < x1 := by linarith [hx1.1]
+    rw [← hval1] at hpos
+    have := (div_pos_iff_of_pos_right hb1).mp hpos
+    exact_mod_cast this
+  have hv2 : ((ratOf r1.m r1.e).1 : ℚ) / (((ratOf r1.m r1.e).2 * 1000000 : Nat) : ℚ) = x1 / 1000000 := by
+    rw [← hval1]; push_cast; field_simp
+  obtain ⟨r2, hr2, hm2, herr2⟩ := roundRat_spec (ratOf r1.m r1.e).1 ((ratOf r1.m r1.e).2 * 1000000) ha1
+    (by positivity)
+    (lo_ok (by rw [hv2]; linarith [hx1.1])) (hi_ok (by rw [hv2]; linarith [hx1.2]))
+  rw [hv2, u53] at herr2
+  have hx2 := abs_le.mp herr2
+  obtain ⟨hb2, hval2⟩ := ratOf_val r2.m r2.e
+  obtain ⟨x2, hx2d⟩ : ∃ x2 : ℚ, x2 = (r2.m : ℚ) * 2 ^ r2.e := ⟨_, rfl⟩
+  rw [← hx2d] at hx2 hval2
+  have hb2n : 0 < (ratOf r2.m r2.e).2 := by exact_mod_cast hb2
+  have ha2 : 0 < (ratOf r2.m r2.e).1 := by
+    have hpos : (0 : ℚ) < x2 := by linarith [hx2.1, hx1.1]
+    rw [← hval2] at hpos
+    have := (div_pos_iff_of_pos_right hb2).mp hpos
+    exact_mod_cast this
+  obtain ⟨D, X, hsix, hD1, hD2, hXa, hXb⟩ := sixDigits_exists _ _ ha2 hb2n
+    (by rw [hval2]; linarith [hx2.1, hx1.1]) (by rw [hval2]; linarith [hx2.2, hx1.2])
+  -- what the getter prints for n
+  have hget : fmtG (dblOfNat n).divUsec = layoutG D X := by
+    have e1 : dblOfNat n = .fin false r1.m r1.e := dblOfRat_some false n 1 r1 hr1
+    have e2 : (Dbl.fin false r1.m r1.e).divUsec = .fin false r2.m r2.e := by
+      show dblOfRat false (ratOf r1.m r1.e).1 ((ratOf r1.m r1.e).2 * 1000000) = _
+      exact dblOfRat_some false _ _ r2 hr2
+    rw [e1, e2]
+    have hm0 : (r2.m == 0) = false := by
+      have : 0 < 2 ^ 52 := by norm_num
+      simp; omega
+    show signBytes false ++ (if (r2.m == 0) = true then [48] else fmtGPos (ratOf r2.m r2.e).1 (ratOf r2.m r2.e).2) = _
+    rw [hm0]
+    simp only [Bool.false_eq_true, if_false, signBytes, List.nil_append]
+    unfold fmtGPos
+    rw [hsix]
+  -- the value read back
+  have hX1 : 0 ≤ X + 1 := by omega
+  have hn' : D * 10 ^ (X + 1).toNat * 100000 = D * 10 ^ (X + 6).toNat := by
+    have : (X + 6).toNat = (X + 1).toNat + 5 := by omega
+    rw [this, Nat.pow_add]; ring
+  have hrt := time_usec_roundtrip env hs hg (D * 10 ^ (X + 1).toNat) D X hD1 hD2 (by omega) hXb hn'
+  have hn40 : D * 10 ^ (X + 1).toNat < 2 ^ 40 := by
+    have h1 : 10 ^ (X + 1).toNat ≤ 10 ^ 6 := Nat.pow_le_pow_right (by norm_num) (by omega)
+    have h2 : D * 10 ^ (X + 1).toNat ≤ 999999 * 10 ^ 6 := Nat.mul_le_mul (by omega) h1
+    norm_num at h2 ⊢
+    omega
+  have hget' := get_time_usec_layout (D * 10 ^ (X + 1).toNat) D X hD1 hD2 (by omega) hn' hn40
+  have hG : ∀ m, applyGetter env .timeUsec (some (.usec m)) = some (fmtG (dblOfNat m).divUsec) := by
+    intro m; show some (env.fmtG (dblOfNat (asUsec (some (.usec m)))).divUsec) = _; rw [hg]; rfl
+  refine ⟨D * 10 ^ (X + 1).toNat, ?_, ?_, hrt⟩
+  · rw [hG, hget]
+    simp only [Option.bind_some]
+    exact layoutG_set env hs D X _ hD1 hD2 (by omega) hXb hn' hn40
+  · rw [hG, hG, hget, hget']
 
 end UsualProofs.C18
